@@ -37,7 +37,7 @@ func evConnect(id int, authok bool, b []byte) hx.Group {
 	return hx.GB([]int64{1, int64(id), a}, b)
 }
 func evBytes(id int, b []byte) hx.Group { return hx.GB([]int64{2, int64(id)}, b) }
-func evDrop(id int) hx.Group           { return hx.G(3, int64(id)) }
+func evDrop(id int) hx.Group            { return hx.G(3, int64(id)) }
 
 func (g *gen) liveCid(cid string) bool {
 	for _, c := range g.live {
@@ -353,12 +353,76 @@ func genWillSessions(r *hx.Rng) []hx.Group {
 	return evs
 }
 
+// first packets that are refused (credentials, protocol level, flags, framing) but name the client
+// identifier of a stored session or of a live connection, with another CleanSession flag and another
+// will: the stored session, the live connection and its will must be what they were
+func genIntruder(r *hx.Rng) []hx.Group {
+	var evs []hx.Group
+	evs = append(evs, evConnect(1, true, mq.Connect(mq.ConnectOpts{ClientID: "watch", Clean: true, KeepAlive: 60, Flags: -1})))
+	evs = append(evs, evBytes(1, mq.Subscribe(1, []string{"will/#"}, []int{1})))
+	id := 1
+	dev := func(clean bool) int {
+		id++
+		o := mq.ConnectOpts{ClientID: "dev", Clean: clean, KeepAlive: 60, Flags: -1, Will: true, WillTopic: "will/dev", WillMsg: []byte("gone"), WillQoS: r.Intn(2)}
+		evs = append(evs, evConnect(id, true, mq.Connect(o)))
+		return id
+	}
+	intrude := func() {
+		id++
+		o := mq.ConnectOpts{ClientID: "dev", Clean: r.Bool(), KeepAlive: 60, Flags: -1, User: "bad", Pass: "x"}
+		if r.Chance(70) {
+			o.Will, o.WillTopic, o.WillMsg, o.WillQoS, o.WillRet = true, "will/dev", []byte("pwned"), r.Intn(3), r.Chance(30)
+		}
+		authok := false
+		switch r.Intn(6) {
+		case 0:
+			o.Level, o.Proto, authok = 5, "MQTT", r.Bool()
+		case 1:
+			o.Flags, authok = []int{1, 0x1c, 0x08}[r.Intn(3)], r.Bool()
+		}
+		b := mq.Connect(o)
+		if r.Chance(30) {
+			b = append(b, mq.Subscribe(3, []string{"#"}, []int{1})...)
+			b = append(b, mq.Publish("t/x", []byte("ghost"), 0, true, false, 0)...)
+		}
+		evs = append(evs, evConnect(id, authok, b))
+	}
+	d := dev(false)
+	evs = append(evs, evBytes(d, mq.Subscribe(2, []string{"t/x", "t/+"}[:1+r.Intn(2)], []int{1, 0})))
+	for round, n := 0, 2+r.Intn(3); round < n; round++ {
+		if r.Bool() {
+			// stored session
+			if r.Bool() {
+				evs = append(evs, evBytes(d, mq.Disconnect()))
+			} else {
+				evs = append(evs, evDrop(d))
+			}
+			for k := 1 + r.Intn(2); k > 0; k-- {
+				intrude()
+			}
+			d = dev(false)
+		} else {
+			// live connection
+			for k := 1 + r.Intn(2); k > 0; k-- {
+				intrude()
+			}
+			evs = append(evs, evDrop(d))
+			d = dev(false)
+		}
+		evs = append(evs, evBytes(1, mq.Publish("t/x", r.Bytes(1+r.Intn(4)), 1, false, false, 20+round)))
+		evs = append(evs, evBytes(d, mq.Ack(mq.PUBACK, 20+round)))
+	}
+	return evs
+}
+
 func genHistory(r *hx.Rng, focus string) []hx.Group {
 	switch k := r.Intn(100); {
 	case k < 18:
 		return genHotFilter(r)
 	case k < 32:
 		return genWillSessions(r)
+	case k < 40:
+		return genIntruder(r)
 	}
 	g := &gen{r: r, inproc: map[int][]string{}}
 	n := 12 + r.Intn(40)
